@@ -11,6 +11,9 @@
  *                                     value it is given and checks that the range lies behind the path
  *                                     inside the used data of the path buffer (vals=ok)
  *   p node                            mpt_parse_node(target, ctx, fmt)
+ *                                     (into an empty target: the nodes are compared, in creation order, with
+ *                                     the names and values of the elements mpt_parse_config reports: names=ok)
+ *   p expect <forest>                 the tree the next `p node` has to deliver (spec side, stated by the generator)
  *   p nparse <limits-hex|null> <log|nolog>   mpt_node_parse(target, stdio stream over the input, fmt, limits,
  *                                     logger or NULL): replaces the children on success
  *   p folder                          mpt_parse_folder over a directory whose only file holds the input
@@ -316,6 +319,47 @@ static void clear_events(void)
 	nev = 0;
 }
 
+/* ------------------------------------------------------------------ tree against the parsed elements */
+/* The nodes mpt_parse_node creates (in creation order = pre-order: new nodes are always linked last) must
+ * carry exactly the names and values of the elements mpt_parse_config reports for the same input. */
+static size_t names_pos;
+static const char *names_walk(const MPT_STRUCT(node) *n)
+{
+	for (; n; n = n->next) {
+		const struct event *e;
+		const uint8_t *nm = 0; size_t nl = 0, el, es;
+		/* next element that creates a node */
+		while (names_pos < nev && evs[names_pos].kind == 2) ++names_pos;
+		if (names_pos >= nev) return "more-nodes";
+		e = &evs[names_pos++];
+		/* name: last path element (data-only elements have none) */
+		el = 0; es = 0;
+		if (e->kind != 4 && e->plen) {
+			size_t end = e->plen - 1;
+			es = end;
+			while (es && e->path[es - 1] != '.') --es;
+			el = end - es;
+		}
+		if (n->ident._len) { nm = mpt_identifier_data(&n->ident); nl = n->ident._len - 1; }
+		if (nl != el || (nl && memcmp(nm, e->path + es, nl))) return "name";
+		if (!n->_meta != !e->hasval) return "value";
+		if (n->_meta) {
+			struct iovec vec = { 0, 0 };
+			MPT_INTERFACE(convertable) *conv = (MPT_INTERFACE(convertable) *) n->_meta;
+			size_t vl;
+			if (conv->_vptr->convert(conv, MPT_type_toVector('c'), &vec) < 0) return "value";
+			vl = vec.iov_len;
+			if (vl && !((const uint8_t *) vec.iov_base)[vl - 1]) --vl;
+			if (vl != e->vlen || (vl && memcmp(vec.iov_base, e->val, vl))) return "value";
+		}
+		if (n->children) {
+			const char *r = names_walk(n->children);
+			if (r) return r;
+		}
+	}
+	return 0;
+}
+
 /* ------------------------------------------------------------------ logger for mpt_node_parse */
 static int log_calls;
 static int drv_log(MPT_INTERFACE(logger) *l, const char *from, int type, const char *fmt, va_list va)
@@ -450,12 +494,41 @@ int main(void)
 		}
 		else if (!strcmp(op, "node") && drv_nw == 2) {
 			MPT_STRUCT(parser_context) ctx;
-			int ret;
+			int ret, was_empty = !root.children;
+			const char *names = "-";
+			size_t calls, used;
 			setup_ctx(&ctx);
 			ret = mpt_parse_node(&root, &ctx, fmt_str);
+			calls = getc_calls; used = input_pos;
+			if (ret >= 0 && was_empty) {
+				/* the elements of the same input, through the event interface */
+				MPT_STRUCT(parser_context) c2;
+				MPT_STRUCT(parser_format) pf;
+				MPT_TYPE(input_parser) next;
+				int r2;
+				setup_ctx(&c2);
+				c2.prev = MPT_PARSEFLAG(Section);
+				next = mpt_parse_next_fcn(mpt_parse_format(&pf, fmt_str));
+				clear_events(); vals_bad = 0; fail_at = -1;
+				r2 = next ? mpt_parse_config(next, &pf, &c2, record, 0) : -1;
+				if (r2 < 0) names = "noevents";
+				else {
+					const char *w;
+					names_pos = 0;
+					w = names_walk(root.children);
+					while (!w && names_pos < nev && evs[names_pos].kind == 2) ++names_pos;
+					names = w ? w : (names_pos < nev ? "less-nodes" : "ok");
+				}
+				clear_events();
+				getc_calls = calls; input_pos = used;
+			}
 			ob_reset(); unsound = 0; put_forest(root.children, &root, 0);
-			printf("R %s sound=%s | C %s", ret < 0 ? "err" : "ok", unsound ? unsound : "ok", ob);
+			printf("R %s sound=%s names=%s | C %s", ret < 0 ? "err" : "ok", unsound ? unsound : "ok", names, ob);
 			put_internals(ret, &ctx);
+		}
+		else if (!strcmp(op, "expect") && drv_nw == 3) {
+			/* the tree the next `p node` has to deliver (spec side only) */
+			printf("R ok\n");
 		}
 		else if (!strcmp(op, "nparse") && drv_nw == 4) {
 			uint8_t *lim = 0; size_t ll = 0; int z = 0, ret, uselog;
